@@ -103,7 +103,7 @@ def d2(chk, prog):
                "stated margin is 500 = 2 x INSERT_SIZE(250); minimum bin = 2*int(avg/32); name Antitarget")
     fi = prog.fn("cnvlib.antitarget.get_antitargets")
     tb = Table(chk, "antitarget-margins", "get_antitargets call structure (with / without accessible regions)", fi.loc(), fi.qn)
-    for have_access in (True, False):
+    for have_access, avg_size in ((True, 150000), (False, 150000), (False, 50000), (False, 400000), (True, 50000)):
         W.reset()
         model = Model()
         ev = []
@@ -128,14 +128,17 @@ def d2(chk, prog):
             return tag("bins")
         model.method_prims["subdivide"] = subdivide
         model.prims["cnvlib.antitarget.drop_noncanonical_contigs"] = lambda it, a, t, verbose=True: tag("access")
-        model.prims["cnvlib.antitarget.guess_chromosome_regions"] = lambda it, t, size: tag("access")
+        guessed = []
+        model.prims["cnvlib.antitarget.guess_chromosome_regions"] = lambda it, t, size, guessed=guessed: guessed.append((t.meta.get("tag"), size)) or tag("access")
         it = Interp(prog, model)
-        out = tb.guard(lambda: it.run(fi.qn, [targets, access if have_access else None, 150000, 9374]), f"access={have_access}")
+        out = tb.guard(lambda: it.run(fi.qn, [targets, access if have_access else None, avg_size, 9374]), f"access={have_access} average size={avg_size}")
         if out is None:
             continue
-        want = [("resize", "access", -500), ("resize", "targets", 500), ("subtract", "access-500", "targets+500"), ("subdivide", "diff", 150000, 9374)]
+        want = [("resize", "access", -500), ("resize", "targets", 500), ("subtract", "access-500", "targets+500"), ("subdivide", "diff", avg_size, 9374)]
         ok = sorted(ev[:2]) == sorted(want[:2]) and ev[2:] == want[2:] and out.meta.get("tag") == "bins" and list(out.data.cols["gene"].v) == ["Antitarget"]
-        tb.cell(ok, dict(accessible_given=have_access, events=ev, gene=list(out.data.cols["gene"].v)))
+        # without an access file the extents are guessed from the targets, skipping the first 150 kb of every chromosome whatever the bin size
+        ok = ok and guessed == ([] if have_access else [("targets", 150000)])
+        tb.cell(ok, dict(accessible_given=have_access, average_bin_size=avg_size, events=ev, extents_guessed_with=guessed, gene=list(out.data.cols["gene"].v)))
     tb.done("antitargets are not (access shrunk by 500) minus (targets padded by 500), subdivided by (average, minimum) and named Antitarget")
     fd = prog.fn("cnvlib.antitarget.do_antitarget")
     tb2 = Table(chk, "antitarget-margins", "do_antitarget default minimum = 2*int(avg * 2^MIN_REF_COVERAGE)", fd.loc(), fd.qn)
